@@ -1,4 +1,82 @@
-import Compio.Model.SyncStream
-import Compio.Model.PollAdapter
+/-
+C12 — machine-checked witnesses of the defects found in the adapters (the model is the code as it
+is; each witness is replayed on the real code by harness/pure/src/bin/c12.rs, see notes/C12.md).
+-/
+import Compio.Lemmas.SyncStream
+import Compio.Lemmas.PollAdapter
+
 namespace Compio.Cex.C12
+open Compio Compio.SyncStream
+
+/-- 32 bytes `1..32` -/
+def src32 : Bytes := (List.range 32).map fun i => UInt8.ofNat (i + 1)
+
+/-- **F11a** `SyncStream::with_limits(8, 10, ..)`: two `fill_read_buf` calls buffer 16 bytes although
+`max_buffer_size = 10` (the limit test is `len >= max` *before* growing by `base_capacity`); only
+the third call reports `OutOfMemory`. -/
+theorem sync_read_limit_exceeded_counterexample :
+    let res := run (State.new 8 10 [.d src32] []) [.fill 9, .fill 9, .fill 9]
+    res.2 = [.num 8, .num 8, .err .oom] ∧ res.1.r.buf.data.length = 16 ∧ 10 < res.1.r.buf.data.length := by
+  decide
+
+/-- **F11b** `base_capacity = 0`: the first `fill_read_buf` offers the inner stream a zero-length
+buffer, takes the resulting `Ok(0)` for end of file and sets `eof`; `read` then reports EOF although
+the inner stream still holds all its data and never signalled its end — silent data loss. -/
+theorem sync_base0_spurious_eof_counterexample :
+    let res := run (State.new 0 64 [.d [1, 2, 3]] []) [.read 3, .fill 9, .read 3, .fillbuf]
+    res.2 = [.err .wb, .num 0, .bytes [], .bytes []] ∧
+    res.1.r.eof = true ∧ res.1.r.innerEof = false ∧ res.1.r.delivered = [] ∧ content res.1.r.script = [1, 2, 3] := by
+  decide
+
+/-- **F11c** after a flush that failed half-way the write buffer's `Vec` keeps the bytes already
+sent (`pos = 3`), and `write` tests only the unsent part against the limit: the `Vec` grows to 7
+bytes with `max_buffer_size = 4`. (The unsent part, 4 bytes, respects the limit.) -/
+theorem sync_write_vec_exceeds_limit_counterexample :
+    let res := run (State.new 16 4 [] [.w 3, .e]) [.write [1, 2, 3, 4], .wflush 9, .write [5, 6, 7]]
+    res.2 = [.num 4, .err .other, .num 3] ∧ res.1.w.buf.data.length = 7 ∧ res.1.w.buf.pos = 3 ∧
+    res.1.w.max < res.1.w.buf.data.length := by
+  decide
+
+section Async
+open Compio.PollAdapter
+
+/-- **F15** stale flush future, single task, no cancellation. The boxed `flush_write_buf()` future
+gives the buffer back before it awaits the inner `flush()`. While it is suspended there a
+`poll_write` is accepted into the (empty) buffer without polling the future; the following
+`poll_flush` merely resumes the stale future and returns `Ready(Ok(()))` with the byte `0x85`
+still buffered: "flushed" data that never reached the inner stream. -/
+theorem async_stale_flush_counterexample :
+    let res := PollAdapter.run (PollAdapter.State.new 4 64 [] [.p, .w 100, .p, .w 100, .w 100])
+      [.pw 0 [0x81, 0x82, 0x83, 0x84], .pw 0 [0x85], .pw 0 [0x85], .pw 0 [0x85], .pfl 0]
+    res.2 = [.num 4, .pending, .pending, .num 1, .unit] ∧
+    res.1.aw.w.sent = [0x81, 0x82, 0x83, 0x84] ∧ res.1.aw.w.accepted = [0x81, 0x82, 0x83, 0x84, 0x85] ∧
+    res.1.aw.w.buf.avail = [0x85] := by
+  decide
+
+/-- **F15, close variant**: `poll_close` sees `write_future.is_some()`, resumes the stale future
+and then shuts the inner stream down (`Io.s`) while two accepted bytes are still in the buffer. -/
+theorem async_stale_close_counterexample :
+    let res := PollAdapter.run (PollAdapter.State.new 8 64 [] [.w 100, .p, .w 100])
+      [.pw 0 [0x81, 0x82, 0x83], .pfl 0, .pw 1 [0x84, 0x85], .pcl 0]
+    res.2 = [.num 3, .pending, .num 2, .unit] ∧ res.1.aw.w.log = [.f, .s] ∧ res.1.aw.closed = true ∧
+    res.1.aw.w.sent = [0x81, 0x82, 0x83] ∧ res.1.aw.w.buf.avail = [0x84, 0x85] := by
+  decide
+
+/-- **F15, consequence**: with the shutdown future then parked while bytes are buffered, the next
+`poll_close` trips the code's own `debug_assert!(self.shutdown_future.is_none())` (a panic in debug
+builds; in release builds a flush would run concurrently with the in-flight shutdown). -/
+theorem async_stale_close_debug_assert_counterexample :
+    (PollAdapter.run (PollAdapter.State.new 8 64 [] [.w 100, .p, .w 1, .p])
+      [.pw 0 [0x81, 0x82, 0x83], .pfl 0, .pw 1 [0x84, 0x85], .pcl 0, .pcl 0]).2 =
+    [.num 3, .pending, .num 2, .pending, .panic] := by
+  decide
+
+/-- the run of F15 is exactly what `GuardedRun` excludes -/
+theorem async_stale_flush_unguarded :
+    ¬ GuardedRun (PollAdapter.State.new 4 64 [] [.p, .w 100, .p, .w 100, .w 100])
+      [.pw 0 [0x81, 0x82, 0x83, 0x84], .pw 0 [0x85], .pw 0 [0x85], .pw 0 [0x85], .pfl 0] := by
+  decide
+
+end Async
+
 end Compio.Cex.C12
